@@ -19,9 +19,9 @@ func TestVerifC06KeySizes(t *testing.T) {
 	prop := vkit.PropertyOr("C06") // also a unit of C04 (the credential can be shown) and C05 (the issuer's signature verifies)
 	r := vkit.Start(t, prop, "key-size-sequences", 120*time.Second, 600*time.Second)
 	defer r.Finish()
-	r.Rule = "every sequence a, b, a of two different keys out of {toy, 1024-bit, 2048-bit} (6 sequences, each the first library use of its process) x honest issuance (2 attributes, no blind attribute; and with a random-blind attribute) at every position; non-trivial = distinct (sequence, position, configuration); oracle: the issuer accepts the commitment proof, the holder obtains a credential whose signature verifies, and a disclosure proof from it verifies"
+	r.Rule = "every sequence a, b, a of two different keys out of {toy, 1024-bit, 2048-bit, 4096-bit (ordinary primes)} (12 sequences, each the first library use of its process) x honest issuance (2 attributes, no blind attribute; and with a random-blind attribute) at every position; non-trivial = distinct (sequence, position, configuration); oracle: the issuer accepts the commitment proof, the holder obtains a credential whose signature verifies, and a disclosure proof from it verifies"
 	vfInstallEnv(t, "C06/keysizes", r.Seed)
-	keys := []string{"toyA", "k1024a", "k2048"}
+	keys := []string{"toyA", "k1024a", "k2048", "k4096w"}
 	for _, a := range keys {
 		for _, b := range keys {
 			if a == b {
